@@ -396,7 +396,7 @@ class _Found(Exception):
 
 
 def hyp_search(acc, strategy, check_case, max_examples, seed, tier='quick', shrink_calls=120,
-               known=(), describe=None, stateful_step_count=None):
+               known=(), describe=None, stateful_step_count=None, max_shrink_sigs=3):
     """Collect-then-shrink.  `check_case(case)` returns a dict with keys
     key, nontrivial, classes, sample, violations=[(signature, message)], excluded=[names].
     Pass 1 explores `max_examples` generated cases and records every violation (never raises, so
@@ -430,7 +430,7 @@ def hyp_search(acc, strategy, check_case, max_examples, seed, tier='quick', shri
     explore()
 
     todo = [s for s in found if not any(s == k or fnmatch.fnmatchcase(s, k) for k in known)]
-    for sig in todo[:3]:
+    for sig in todo[:max_shrink_sigs]:
         state = dict(calls=0, failing=0)
 
         @hypothesis.seed(seed)
